@@ -417,12 +417,19 @@ func c06Set(p *Prog, rp *Report, archT *types.Named) {
 					fmt.Sscanf(tag, "e%d", &i)
 					return []Val{mask&(1<<i) != 0}, true
 				}
+				setBefore, argBefore := deepRender(st, Ptr{Obj: sid}, 0), deepRender(st, Ptr{Obj: oid}, 0)
 				st.push(fn, []Val{Ptr{Obj: sid}, Ptr{Obj: oid}}, nil)
 				out := m.Run(st)
 				rows++
 				if len(out) != 1 || out[0].Status != stRet || badArg != "" {
 					r.undecided("dependency.ArchSet.Matches", pos, fmt.Sprintf("n=%d mask=%b not=%v: %s %s", n, mask, not, retDesc(out), badArg))
 					return
+				}
+				if a1, a2 := deepRender(out[0], Ptr{Obj: sid}, 0), deepRender(out[0], Ptr{Obj: oid}, 0); a1 != setBefore || a2 != argBefore {
+					bad++
+					if first == "" {
+						first = fmt.Sprintf("list of %d entries, negated=%v: Matches changes what it is asked about (the set %s became %s): a question is not a query any more", n, not, clip(setBefore, 120), clip(a1, 120))
+					}
 				}
 				want := n == 0 || ((mask != 0) != not)
 				if out[0].Ret != want {
